@@ -94,7 +94,17 @@ func genC19(g *gen) {
 			}
 			ti := g.r.intn(len(live))
 			t := live[ti]
-			switch g.r.intn(18) {
+			switch g.r.intn(19) {
+			case 18:
+				// a multi-iterator over two or three live tensors (equal shapes, vector shapes of different classes, or
+				// anything else: it borrows and returns pool slices and must leave every operand as it was)
+				if len(live) >= 2 {
+					ops := []string{fmt.Sprintf("$%d", t.v)}
+					for j := 0; j < 1+g.r.intn(2); j++ {
+						ops = append(ops, fmt.Sprintf("$%d", live[g.r.intn(len(live))].v))
+					}
+					steps = append(steps, fmt.Sprintf("multi %s %s", strings.Join(ops, " "), g.r.pick([]string{"N", "nn", "rN", "nxN"})))
+				}
 			case 17:
 				// a reduction that only reads its operand (arg-reductions build their result from AP.T / AP.S copies)
 				if t.shape != nil && len(t.shape) > 0 && dt != "c128" {
